@@ -139,6 +139,13 @@ func explodeOperator(d *dataTreeNavigator, context Context, expressionNode *Expr
 }
 
 func reconstructAliasedMap(node *CandidateNode, context Context) error {
+	// an expression can put a map below the anchor it merges (x: &x {z: {<<: *x}}), text cannot:
+	// following such a merge would never end
+	if node.exploding {
+		return fmt.Errorf("cannot explode a map that merges (<<) an anchor it is itself part of")
+	}
+	node.exploding = true
+	defer func() { node.exploding = false }()
 	var newContent = list.New()
 	// can I short cut here by prechecking if there's an anchor in the map?
 	// no it needs to recurse in overrideEntry.
